@@ -222,7 +222,7 @@ def check(ctx):
                 # the stored result records the state that was sampled with, and the reduced data
                 buf = fld(res, 'adjustment_data_')
                 if not (isinstance(buf, tuple) and buf and buf[0] == 'hout' and buf[1] == 'hep::allreduce_result'
-                        and buf[2] == 'buffer'):
+                        and buf[2] == allreduce_roles(p)['out'][1]):
                     buf = None
                 ok_state = fld(res, c['state_field']) == pre and kc[0][0]['args'][2] == pre
                 ok_data = buf is not None and fld(res, 'adjustment_data_') == buf
